@@ -4,7 +4,10 @@ pub mod c03;
 pub mod c05;
 pub mod c06;
 pub mod c07;
+pub mod c08;
 pub mod c12;
+pub mod c13;
+pub mod c15;
 
 use crate::engine::PropertyDef;
 
@@ -16,9 +19,12 @@ pub fn def(id: &str) -> Option<PropertyDef> {
         "C05" => c05::def(),
         "C06" => c06::def(),
         "C07" => c07::def(),
+        "C08" => c08::def(),
         "C12" => c12::def(),
+        "C13" => c13::def(),
+        "C15" => c15::def(),
         _ => return None,
     })
 }
 
-pub const ALL: &[&str] = &["C01", "C02", "C03", "C05", "C06", "C07", "C12"];
+pub const ALL: &[&str] = &["C01", "C02", "C03", "C05", "C06", "C07", "C08", "C12", "C13", "C15"];
